@@ -17,6 +17,8 @@ def main():
         meta = json.load(open(os.path.join(SEEDED, sid, 'meta.json')))
         conf = meta.get('confirmed', {})
         ok = 'yes' if conf.get('ok') else ('patch no longer applies' if conf.get('patch_applies_to_repo_head') is False else 'no')
+        if meta.get('out_of_scope'):
+            ok += ' (out of scope: %s)' % str(meta['out_of_scope'])[:60]
         r = res.get(sid, {})
         caught = []
         for prop, v in r.items():
@@ -27,7 +29,7 @@ def main():
                     if m and m.group(1) not in names:
                         names.append(m.group(1))
                 caught.append('%s: %s' % (prop, ', '.join('`%s`' % n for n in names[:2])))
-        if conf.get('ok'):
+        if conf.get('ok') and not meta.get('out_of_scope'):
             ntotal += 1
             ncaught += 1 if caught else 0
 
